@@ -8,11 +8,19 @@
 // sent (streams.go: every message type x declared length x payload class,
 // mux header variants, cuts at every byte of a valid request, several frames
 // per connection, seeded mutations and random streams) and observes: the
-// worker's exit and panic text, runtime.MemStats.TotalAlloc before/after the
-// connection, the reply bytes, and a liveness probe (valid WriteShard + valid
-// ListShards on a fresh connection) after every stream. A dead worker is
+// worker's exit and panic text, the cumulative heap allocation (the quantity
+// of runtime.MemStats.TotalAlloc, read as /gc/heap/allocs:bytes) before/after
+// the connection, the reply bytes, and a liveness probe (valid WriteShard +
+// valid ListShards on a fresh connection) after every stream. A dead worker is
 // classified by the repository function on top of the faulting stack and a
 // new worker is started.
+//
+// Signatures: C15/crash/<function>, C15/alloc/frame-over-max-message-size,
+// C15/unresponsive/blocked-in/<functions> (same blocked handler stacks in two
+// goroutine dumps; anything weaker is INCONCLUSIVE),
+// C15/mux/foreign-header-reached-coordinator, C15/reply/{malformed,undecodable,
+// invalid-request-accepted}/<message>[/<case>], C15/fidelity/<type>/<field>,
+// C15/fidelity/error/<type>, C15/fidelity/stream/<point type>/<what>.
 //
 // FIDELITY (fidelity.go). Every exported request/response type of
 // coordinator/rpc.go through MarshalBinary/UnmarshalBinary, and point streams
